@@ -185,7 +185,28 @@ pub fn resolve_threshold(spec: ThresholdSpec, table: &Table, rows: &[[f32; 5]]) 
 // --- generator ---------------------------------------------------------------------------------
 
 fn gen_matrix(r: &mut Prng, m: usize, class: u64) -> MatrixSpec {
-    match class % 5 {
+    match class % 6 {
+        5 => {
+            // two-valued match / mismatch matrices (one preferred base per row): every cell is an exact
+            // multiple of range/255 when the width divides 255, so the discretisation has no rounding slack
+            // pairs whose sums are exact in f32 (compared strictly) and pairs whose sums are not (tolerance band)
+            let exact_pair = r.chance(2, 3);
+            let (hi, lo) = if exact_pair {
+                *r.pick(&[(1.0f32, -0.5f32), (1.0, -1.0), (2.0, -1.0), (0.5, -0.25), (1.0, 0.0), (3.0, -2.0), (0.75, -0.25), (1.5, -0.5), (4.0, -1.0), (1.0, -0.25)])
+            } else {
+                *r.pick(&[(1.0f32, -0.4f32), (0.7, -0.3), (1.1, -0.1), (2.0, -0.6)])
+            };
+            let wild = *r.pick(&[f32::NEG_INFINITY, 0.0, lo, hi, lo - 1.0]);
+            let rows = (0..m)
+                .map(|_| {
+                    let mut row = [lo.to_bits(); 5];
+                    row[r.usize_below(4)] = hi.to_bits();
+                    row[4] = wild.to_bits();
+                    row
+                })
+                .collect();
+            MatrixSpec::Direct { rows, exact: exact_pair }
+        }
         0 | 1 => {
             // library conversions from counts
             let n = r.range(1, 60) as u32;
@@ -418,6 +439,8 @@ pub fn gen_world(r: &mut Prng, idx: u64, prop: &str, forced: Option<(usize, usiz
             _ => r.range(2, 20),
         },
     };
+    // two-valued matrices: prefer the widths that divide 255
+    let m = if forced.is_none() && idx % 6 == 5 && r.chance(2, 3) { *r.pick(&[1usize, 3, 5, 15, 17, 51]) } else { m };
     let matrix = gen_matrix(r, m, idx);
     let spare_width = if r.chance(1, 4) { m + r.range(1, 40) } else { 0 };
     let wrap = (m - 1).max(spare_width.saturating_sub(1));
